@@ -171,8 +171,8 @@ func newGSUB(table tables.Layout) (GSUB, error) {
 				}
 			}
 
-			// sanitize each lookup
-			switch subtable := subtable.(type) {
+			// sanitize each lookup (the resolved one for extensions)
+			switch subtable := subtables[j].(type) {
 			case tables.MultipleSubs:
 				err = subtable.Sanitize()
 			case tables.LigatureSubs:
@@ -226,8 +226,8 @@ func newGPOS(table tables.Layout) (GPOS, error) {
 				}
 			}
 
-			// sanitize each lookup
-			switch subtable := subtable.(type) {
+			// sanitize each lookup (the resolved one for extensions)
+			switch subtable := subtables[j].(type) {
 			case tables.SinglePos:
 				err = subtable.Sanitize()
 			case tables.PairPos:
